@@ -118,3 +118,22 @@ mutant("make_unique_gate_inverted", ["C03", "C08"], [("src/arc.rs", "    pub fn 
 mutant("try_unique_gate_dropped", ["C03", "C09"], [("src/arc.rs", "    pub fn try_unique(this: Self) -> Result<UniqueArc<T>, Self> {\n        if this.is_unique() {", "    pub fn try_unique(this: Self) -> Result<UniqueArc<T>, Self> {\n        if Arc::strong_count(&this) >= 1 {")])
 benign("gate_inlined_count_eq", [("src/arc.rs", "    pub fn get_mut(this: &mut Self) -> Option<&mut T> {\n        if this.is_unique() {", "    pub fn get_mut(this: &mut Self) -> Option<&mut T> {\n        let unique = this.is_unique();\n        if unique {")])
 benign("get_mut_match_form", [("src/arc.rs", "        if this.is_unique() {\n            unsafe {\n                // See make_mut() for documentation of the threadsafety here.\n                Some(&mut (*this.ptr()).data)\n            }\n        } else {\n            None\n        }", "        match this.is_unique() {\n            false => None,\n            true => unsafe { Some(&mut (*this.ptr()).data) },\n        }")])
+
+# ------------------------------------------------------------------ C14
+mutant("revert_fix_arcborrow_derive", ["C14"], [("src/arc_borrow.rs", "#[repr(transparent)]\npub struct ArcBorrow<'a, T: ?Sized + 'a>", "#[derive(Debug, Eq, PartialEq)]\n#[repr(transparent)]\npub struct ArcBorrow<'a, T: ?Sized + 'a>"),
+    ("src/arc_borrow.rs", "impl<'a, T: ?Sized + PartialEq + 'a> PartialEq for ArcBorrow<'a, T> {\n    #[inline]\n    fn eq(&self, other: &Self) -> bool {\n        unsafe { *self.0.as_ptr() == *other.0.as_ptr() }\n    }\n}\n\nimpl<'a, T: ?Sized + Eq + 'a> Eq for ArcBorrow<'a, T> {}\n\nimpl<'a, T: ?Sized + fmt::Debug + 'a> fmt::Debug for ArcBorrow<'a, T> {\n    fn fmt(&self, f: &mut fmt::Formatter) -> fmt::Result {\n        fmt::Debug::fmt(unsafe { &*self.0.as_ptr() }, f)\n    }\n}\n", ""),
+    ("src/arc_borrow.rs", "use core::fmt;\n", "")])
+mutant("revert_fix_hwl_ordering", ["C14"], [("src/header.rs", "(&self.header.header, &self.slice, &self.header.length).cmp(&(\n            &other.header.header,\n            &other.slice,\n            &other.header.length,\n        ))", "(&self.header.header, &self.slice).cmp(&(&other.header.header, &other.slice))")])
+mutant("arc_cmp_pointers", ["C14"], [("src/arc.rs", "    fn cmp(&self, other: &Arc<T>) -> Ordering {\n        (**self).cmp(&**other)", "    fn cmp(&self, other: &Arc<T>) -> Ordering {\n        (self.ptr() as *const () as usize).cmp(&(other.ptr() as *const () as usize))")])
+mutant("arc_cmp_nonnull", ["C14"], [("src/arc.rs", "    fn cmp(&self, other: &Arc<T>) -> Ordering {\n        (**self).cmp(&**other)", "    fn cmp(&self, other: &Arc<T>) -> Ordering {\n        self.p.cast::<()>().cmp(&other.p.cast::<()>())")])
+mutant("thin_hash_header_only", ["C14"], [("src/thin_arc.rs", "ThinArc::with_arc(self, |a| a.hash(state))", "ThinArc::with_arc(self, |a| a.header.hash(state))")])
+mutant("offset_ne_pointer", ["C14"], [("src/offset_arc.rs", "    fn ne(&self, other: &OffsetArc<T>) -> bool {\n        *(*self) != *(*other)", "    fn ne(&self, other: &OffsetArc<T>) -> bool {\n        self.ptr != other.ptr")])
+mutant("arc_lt_via_le", ["C14"], [("src/arc.rs", "        *(*self) < *(*other)", "        *(*self) <= *(*other)")])
+mutant("display_via_debug", ["C14"], [("src/arc.rs", "impl<T: ?Sized + fmt::Display> fmt::Display for Arc<T> {\n    fn fmt(&self, f: &mut fmt::Formatter) -> fmt::Result {\n        fmt::Display::fmt(&**self, f)", "impl<T: ?Sized + fmt::Display + fmt::Debug> fmt::Display for Arc<T> {\n    fn fmt(&self, f: &mut fmt::Formatter) -> fmt::Result {\n        fmt::Debug::fmt(&**self, f)")])
+mutant("arc_eq_requires_same_alloc", ["C14"], [("src/arc.rs", "Self::ptr_eq(self, other) || *(*self) == *(*other)", "Self::ptr_eq(self, other) && *(*self) == *(*other)")])
+mutant("arc_ne_only_pointer", ["C14"], [("src/arc.rs", "!Self::ptr_eq(self, other) && *(*self) != *(*other)", "!Self::ptr_eq(self, other) || *(*self) != *(*other)")])
+mutant("arc_debug_prints_pointer", ["C14"], [("src/arc.rs", "impl<T: ?Sized + fmt::Debug> fmt::Debug for Arc<T> {\n    fn fmt(&self, f: &mut fmt::Formatter) -> fmt::Result {\n        fmt::Debug::fmt(&**self, f)", "impl<T: ?Sized + fmt::Debug> fmt::Debug for Arc<T> {\n    fn fmt(&self, f: &mut fmt::Formatter) -> fmt::Result {\n        fmt::Debug::fmt(&self.p, f)")])
+mutant("hwl_hash_skips_length_manual", ["C14"], [("src/header.rs", "#[derive(Debug, Copy, Clone, Eq, PartialEq, Hash)]\n#[repr(C)]\npub struct HeaderWithLength<H> {", "#[derive(Debug, Copy, Clone, Eq, PartialEq)]\n#[repr(C)]\npub struct HeaderWithLength<H> {"), ("src/header.rs", "impl<H> HeaderWithLength<H> {\n    /// Creates a new HeaderWithLength.", "impl<H: core::hash::Hash> core::hash::Hash for HeaderWithLength<H> {\n    fn hash<S: core::hash::Hasher>(&self, s: &mut S) { self.header.hash(s); 0usize.hash(s) }\n}\n\nimpl<H> HeaderWithLength<H> {\n    /// Creates a new HeaderWithLength.")])
+mutant("borrow_returns_other", ["C14"], [("src/arc.rs", "impl<T: ?Sized> AsRef<T> for Arc<T> {\n    #[inline]\n    fn as_ref(&self) -> &T {\n        self\n    }", "impl<T: ?Sized> AsRef<T> for Arc<T> {\n    #[inline]\n    fn as_ref(&self) -> &T {\n        unsafe { &*(self.as_ptr()) }\n    }")])
+benign("thin_eq_ptr_shortcut_via_arc", [("src/thin_arc.rs", "ThinArc::with_arc(self, |a| ThinArc::with_arc(other, |b| *a == *b))", "ThinArc::with_arc(self, |a| ThinArc::with_arc(other, |b| Arc::ptr_eq(a, b) || *a == *b))")])
+benign("arc_partial_cmp_via_deref_call", [("src/arc.rs", "        (**self).partial_cmp(&**other)", "        PartialOrd::partial_cmp(Deref::deref(self), Deref::deref(other))")])
